@@ -101,18 +101,24 @@ func ruleWithStack(c *Ctx, r *R) {
 			sameRet = true
 			for _, g := range guardsOf(b) {
 				if v, val := g.boolVal(); val {
-					if call, ok := v.(*ssa.Call); ok {
-						if isCallTo(&call.Call, "errors", "", "As") && call.Call.Args[0] == ssa.Value(errP) {
-							// the target is *withStack
-							if pt, ok := call.Call.Args[1].(*ssa.MakeInterface); ok {
-								if p, ok := pt.X.Type().(*types.Pointer); ok && typeShort(p.Elem()) == "withStack" {
-									chainWalk = true
+					for _, lf := range valueLeaves(v, nil, 0) {
+						isErrP := func(a ssa.Value) bool {
+							pv := valueProv(a, provEnv{chain: lf.chain})
+							return pv.root == ssa.Value(errP) && len(pv.fields) == 0
+						}
+						if call, ok := lf.v.(*ssa.Call); ok {
+							if isCallTo(&call.Call, "errors", "", "As") && isErrP(call.Call.Args[0]) {
+								// the target is *withStack
+								if pt, ok := call.Call.Args[1].(*ssa.MakeInterface); ok {
+									if p, ok := pt.X.Type().(*types.Pointer); ok && typeShort(p.Elem()) == "withStack" {
+										chainWalk = true
+									}
 								}
 							}
-						}
-						if isCallTo(&call.Call, "errors", "", "Is") && call.Call.Args[0] == ssa.Value(errP) {
-							if mi, ok := call.Call.Args[1].(*ssa.MakeInterface); ok && (types.Comparable(mi.X.Type()) || hasIsMethod(mi.X.Type())) {
-								chainWalk = true
+							if isCallTo(&call.Call, "errors", "", "Is") && isErrP(call.Call.Args[0]) {
+								if mi, ok := call.Call.Args[1].(*ssa.MakeInterface); ok && (types.Comparable(mi.X.Type()) || hasIsMethod(mi.X.Type())) {
+									chainWalk = true
+								}
 							}
 						}
 					}
@@ -336,12 +342,59 @@ func ruleTailCleared(c *Ctx, r *R) {
 		}
 		// typestate: 0 = tail not cleared, 1 = cleared
 		pf := &PF{N: 2}
+		sP := fn.Params[0]
+		isTailOf := func(v ssa.Value) bool { // s[k:]
+			sl, ok := resolveVal(v).(*ssa.Slice)
+			return ok && sl.Low != nil && sl.High == nil && resolveVal(sl.X) == ssa.Value(sP)
+		}
 		pf.Instr = func(f *ssa.Function, in ssa.Instruction, q int) (StateSet, bool) {
 			if call, ok := in.(*ssa.Call); ok {
-				if cal := staticCallee(&call.Call); cal != nil && cal.Name() == "Clear" {
-					if sl, ok := call.Call.Args[0].(*ssa.Slice); ok && sl.Low != nil && sl.High == nil && sl.X == ssa.Value(fn.Params[0]) {
+				if cal := staticCallee(&call.Call); cal != nil && (cal.Name() == "Clear" || cal.Name() == "Fill") && isTailOf(call.Call.Args[0]) {
+					if cal.Name() == "Clear" || (len(call.Call.Args) == 2 && isZeroValue(call.Call.Args[1])) {
 						return ss(1), true
 					}
+				}
+				if bi, ok := call.Call.Value.(*ssa.Builtin); ok && bi.Name() == "clear" && len(call.Call.Args) == 1 && isTailOf(call.Call.Args[0]) {
+					return ss(1), true
+				}
+			}
+			return 0, false
+		}
+		// an explicit zeroing loop over the tail: leaving `for i := k; i < len(s); i++ { s[i] = zero }` (or a range over s[k:])
+		// through its exit edge means every slot from k on was overwritten with the zero value
+		zeroIdx := map[ssa.Value]bool{}
+		instrs(fn, func(b *ssa.BasicBlock, i int, in ssa.Instruction) {
+			st, ok := in.(*ssa.Store)
+			if !ok || !isZeroValue(st.Val) {
+				return
+			}
+			if ia, ok := st.Addr.(*ssa.IndexAddr); ok {
+				base := resolveVal(ia.X)
+				if base == ssa.Value(sP) || isTailOf(base) {
+					zeroIdx[ia.Index] = true
+				}
+			}
+		})
+		pf.Edge = func(f *ssa.Function, g guard, q int) (StateSet, bool) {
+			cf, ok := g.asCmp()
+			if !ok {
+				return 0, false
+			}
+			x, y, op := cf.x, cf.y, cf.op
+			if zeroIdx[y] {
+				x, y, op = y, x, flip(op)
+			}
+			if !zeroIdx[x] || op != token.GEQ {
+				return 0, false
+			}
+			// the bound is the length of s (or of the tail slice being ranged over)
+			yl := resolveVal(y)
+			if isLenOf(yl, sP) {
+				return ss(1), true
+			}
+			if call, ok := yl.(*ssa.Call); ok {
+				if bi, ok := call.Call.Value.(*ssa.Builtin); ok && bi.Name() == "len" && isTailOf(call.Call.Args[0]) {
+					return ss(1), true
 				}
 			}
 			return 0, false
